@@ -238,4 +238,142 @@ theorem runMem_ts (ceq : TupleRec → TupleRec → Bool) : ∀ (h : List WriteRe
       rw [specWrite_ok_form hs]
       exact specState_ts false id s r.dels r.writes r.now t h1 hi
 
+/-! ### the two backends agree on a write -/
+
+/-- the error decision of the specification does not depend on the backend's order / normalisation -/
+theorem spec_error_backend_independent (ceq : TupleRec → TupleRec → Bool) (s : StoreState) (dels : List TupleKey)
+    (writes : List TupleRec) (o : WriteOpts) (now : Nat) :
+    (specWrite ceq true normCond s dels writes o now).toOption.isSome = (specWrite ceq false id s dels writes o now).toOption.isSome ∧
+    ∀ e, specWrite ceq true normCond s dels writes o now = .error e ↔ specWrite ceq false id s dels writes o now = .error e := by
+  unfold specWrite
+  by_cases c1 : (!o.ignoreMissing && dels.any (fun k => (stored s k).isNone)) = true
+  · simp [c1, Except.toOption]
+  by_cases c2 : (!o.ignoreDup && writes.any (fun w => (stored s w.key).isSome)) = true
+  · simp [c1, c2, Except.toOption]
+  by_cases c3 : writes.any (fun w => (stored s w.key).any (fun e => !ceq e w)) = true
+  · simp [c1, c2, c3, Except.toOption]
+  simp [c1, c2, c3, Except.toOption]
+
+theorem inj_on_of_nodup_map {α β} (f : α → β) : ∀ (l : List α), (l.map f).Nodup → ∀ a ∈ l, ∀ b ∈ l, f a = f b → a = b := by
+  intro l
+  induction l with
+  | nil => intro _ a ha; cases ha
+  | cons x xs ih =>
+    intro h a ha b hb hab
+    rw [List.map_cons, List.nodup_cons] at h
+    rcases List.mem_cons.mp ha with rfl | ha' <;> rcases List.mem_cons.mp hb with rfl | hb'
+    · rfl
+    · exact absurd (List.mem_map.mpr ⟨b, hb', hab.symm⟩) h.1
+    · exact absurd (List.mem_map.mpr ⟨a, ha', hab⟩) h.1
+    · exact ih h.2 a ha' b hb' hab
+
+theorem nodup_of_nodup_map {α β} (f : α → β) : ∀ (l : List α), (l.map f).Nodup → l.Nodup := by
+  intro l
+  induction l with
+  | nil => intro _; exact List.nodup_nil
+  | cons x xs ih =>
+    intro h
+    rw [List.map_cons, List.nodup_cons] at h
+    rw [List.nodup_cons]
+    exact ⟨fun hx => h.1 (List.mem_map.mpr ⟨x, hx, rfl⟩), ih h.2⟩
+
+theorem effDelTrue_nodup (s : StoreState) : ∀ (dels : List TupleKey), dels.Nodup → (dels.filterMap (fun k => stored s k)).Nodup := by
+  intro dels
+  induction dels with
+  | nil => intro _; simp
+  | cons k ks ih =>
+    intro hd
+    rw [List.nodup_cons] at hd
+    cases h : stored s k with
+    | none =>
+      have hnone : (fun k => stored s k) k = none := h
+      rw [List.filterMap_cons_none hnone]; exact ih hd.2
+    | some t =>
+      have hsome : (fun k => stored s k) k = some t := h
+      rw [List.filterMap_cons_some hsome, List.nodup_cons]
+      refine ⟨?_, ih hd.2⟩
+      intro hmem
+      obtain ⟨k', hk', hst⟩ := List.mem_filterMap.mp hmem
+      have h1 := (stored_some_key h).2
+      have h2 := (stored_some_key hst).2
+      exact hd.1 (by rw [← h1, h2]; exact hk')
+
+theorem effDel_perm (s : StoreState) (dels : List TupleKey) (hs : (s.tuples.map (·.key)).Nodup) (hd : dels.Nodup) :
+    (effDelOf true s dels).Perm (effDelOf false s dels) := by
+  have hkeys_inj := inj_on_of_nodup_map (fun t : TupleRec => t.key) s.tuples hs
+  have n2 : (effDelOf false s dels).Nodup := by
+    unfold effDelOf
+    simp only [Bool.false_eq_true, if_false]
+    exact List.Nodup.sublist List.filter_sublist (nodup_of_nodup_map _ _ hs)
+  have n1 : (effDelOf true s dels).Nodup := by
+    unfold effDelOf
+    simp only [if_true]
+    exact effDelTrue_nodup s dels hd
+  rw [List.perm_ext_iff_of_nodup n1 n2]
+  intro t
+  unfold effDelOf
+  simp only [if_true, Bool.false_eq_true, if_false, List.mem_filterMap, List.mem_filter, List.contains_iff_mem]
+  constructor
+  · rintro ⟨k, hk, hst⟩
+    obtain ⟨h1, h2⟩ := stored_some_key hst
+    exact ⟨h1, h2 ▸ hk⟩
+  · rintro ⟨ht, hk⟩
+    refine ⟨t.key, hk, ?_⟩
+    have hs' : (stored s t.key).isSome = true := by
+      rw [stored_isSome_iff, List.any_eq_true]; exact ⟨t, ht, by simp⟩
+    cases hst : stored s t.key with
+    | none => simp [hst] at hs'
+    | some t' =>
+      obtain ⟨h1, h2⟩ := stored_some_key hst
+      rw [hkeys_inj t' h1 t ht h2]
+
+
+/-- what `ReadChanges` shows of a change besides its position and time -/
+def payload (c : Change) : TupleRec × Op := (c.tuple, c.op)
+
+theorem mkChanges_payload (now : Nat) : ∀ (items : List (TupleRec × Op)) (n : Nat), (mkChanges n now items).map payload = items := by
+  intro items
+  induction items with
+  | nil => intro n; rfl
+  | cons x xs ih => intro n; simp [mkChanges, payload, ih]
+
+/-- **after COMMIT the SQL store equals memory.Write's.** Started from the same store, the failure-free sqlite.write and
+    memory.Write give the same verdict; `Read` shows the same tuples in the same order; the changelogs have the
+    same length, the same old part and the same new entries — the new delete entries possibly in another order
+    (request order vs store order), which is why the changelogs are compared as multisets of (tuple, operation). -/
+theorem sql_commit_equals_memWrite_gen (ceq : TupleRec → TupleRec → Bool) (cfg : SqlCfg) (hc : CfgOK cfg) (s : StoreState)
+    (dels : List TupleKey) (writes : List TupleRec) (o : WriteOpts) (now : Nat) (h : ReqOK dels writes)
+    (hs : (s.tuples.map (·.key)).Nodup) :
+    (memWrite ceq s dels writes o now).2 = (sqlWrite ceq cfg { committed := s } dels writes o now none).2 ∧
+    (sqlWrite ceq cfg { committed := s } dels writes o now none).1.committed.tuples.map normCond
+      = (memWrite ceq s dels writes o now).1.tuples.map normCond ∧
+    ((sqlWrite ceq cfg { committed := s } dels writes o now none).1.committed.changes.map payload).Perm
+      ((memWrite ceq s dels writes o now).1.changes.map payload) ∧
+    (sqlWrite ceq cfg { committed := s } dels writes o now none).1.committed.changes.length
+      = (memWrite ceq s dels writes o now).1.changes.length := by
+  rw [memWrite_eq_spec ceq s dels writes o now h, sqlWrite_eq_spec ceq cfg hc { committed := s } dels writes o now h.nodup hs]
+  have hind := spec_error_backend_independent ceq s dels writes o now
+  cases hm : specWrite ceq false id s dels writes o now with
+  | error e =>
+    have := (hind.2 e).mpr hm
+    rw [this]
+    simp [toResult, toDbResult]
+  | ok sm =>
+    cases hq : specWrite ceq true normCond s dels writes o now with
+    | error e =>
+      have := (hind.2 e).mp hq
+      rw [hm] at this; cases this
+    | ok sq =>
+      rw [specWrite_ok_form hm, specWrite_ok_form hq]
+      simp only [toResult, toDbResult, specState]
+      refine ⟨trivial, ?_, ?_, ?_⟩
+      · simp [List.map_append, List.map_map, Function.comp, normCond_idem]
+      · rw [pushAll_eq, pushAll_eq, List.map_append, List.map_append, mkChanges_payload, mkChanges_payload]
+        apply List.Perm.append_left
+        apply List.Perm.append_right
+        exact (effDel_perm s dels hs (List.nodup_append.mp h.nodup).1).map _
+      · rw [pushAll_eq, pushAll_eq]
+        simp only [List.length_append, mkChanges_length, List.length_map]
+        rw [(effDel_perm s dels hs (List.nodup_append.mp h.nodup).1).length_eq]
+
 end OpenFGAVerif.Proofs.StoreWrite
